@@ -173,6 +173,12 @@ def check(run: Run) -> None:
             if e.startswith("C18.b"):
                 raise AnalysisError("model-mismatch", e)
 
+    with run.obligation("C17.f", "K2+K7", "real-time wake-ups booked inside wrapped / keyed sub-graphs are not dropped: try_except re-arms from its child after a captured "
+                        "failure too, and the owners of several children pull the next wake-up of EVERY live child (shared with C15.c, C09.d)"):
+        from . import c15, c09
+        R.share(run, "C17.f", c15, ["C15.c"])
+        R.share(run, "C17.f", c09, ["C09.d"])
+
 
 VARIANTS = [
     {"id": "a-no-floor", "expect": "C17.a", "edits": [{"file": EXEC, "find": "const DateTime wall_or_next_cycle = std::max(wall_now, next_cycle);", "replace": "const DateTime wall_or_next_cycle = wall_now;"}]},
